@@ -502,8 +502,9 @@ func c09Layout(e *env, c *c09Case, idx int) {
 
 func c09Config(c *c09Case, k int) (withPO bool, o progOpts) {
 	o = progOpts{depth: 3, directives: true, ij: true, shapes: true, chainExtra: []string{"|" + c09Bang}}
-	// 1..20 templates, small bundles still frequent (code may treat small and large registries differently)
-	o.maxTemplates = []int{3, 6, 12, 20}[(k/4)%4]
+	// 1..40 templates, small bundles still frequent (code may treat small and large registries differently:
+	// a lookup structure built on first use only from some size on)
+	o.maxTemplates = []int{3, 6, 20, 40}[(k/4)%4]
 	switch k % 4 {
 	case 0: // plain
 	case 1: // a custom obligatory directive and a custom function
@@ -1015,7 +1016,12 @@ func c09Compile(files []srcFile) (*template.Registry, error) {
 	for _, f := range files {
 		b.AddTemplateString(f.Name, f.Text)
 	}
-	return b.Compile()
+	reg, err := b.Compile()
+	if err == nil {
+		// the parser invariant the reviewed latent hazard of ast.MsgNode.Placeholder rests on (c09c.go)
+		err = c09PlaceholderQueueInvariant(reg)
+	}
+	return reg, err
 }
 
 // one render, alone or not: "ok:"/"err:" + hex of the bytes that reached the writer
@@ -1098,19 +1104,27 @@ func c09JS(f *ast.SoyFileNode, msgs soymsg.Bundle, es6 bool) (res string) {
 // ---- what every operation of a case yields when it is the only thing running ----
 
 type c09Expect struct {
-	solo, soloF, soloR, soloV []string // per job: plain, failing writer, Tofu.Render convenience, variant bundle
-	js                        [][3]string // per file: ES5, ES6 (shared formatter), Generator.WriteFile; "" = not comparable
-	broken                    string      // compile error of the broken variant
+	solo, soloF, soloR, soloV, soloW []string // per job: plain, failing writer, Tofu.Render convenience, the two variant bundles
+	js                               [][4]string // per file: ES5, ES6 (shared formatter), Generator.WriteFile, ES5 into a failing writer; "" = not comparable
+	jsBad                            [2]string   // the file soyjs rejects half way (c09d.go), ES5 / ES6
+	broken                           string      // compile error of the broken variant
 }
 
 // c09Limit: where the failing writer of job j gives up (independent of the output)
 func c09Limit(j int) int { return 5 + 7*(j%4) }
 
-// the independent bundle with the SAME template names and other bodies
-func c09Variant(files []srcFile) []srcFile {
+// the independent bundles with the SAME template names and other bodies: every template additionally
+// prints string literals full of escape sequences (backslash, quote, control and \u escapes) whose text
+// is particular to the variant, so that two of them compiled at the same time decode different literals
+// at the same time (a decoder with shared scratch space mixes them up)
+func c09Variant(files []srcFile) []srcFile { return c09VariantTag(files, "VARIANT") }
+func c09Variant2(files []srcFile) []srcFile { return c09VariantTag(files, "OTHER") }
+
+func c09VariantTag(files []srcFile, tag string) []srcFile {
 	v := make([]srcFile, len(files))
 	for k, f := range files {
-		v[k] = srcFile{f.Name, strings.Replace(f.Text, "\n{/template}", "{sp}VARIANT\n{/template}", -1)}
+		lits := fmt.Sprintf(`{sp}%s{'\t%s\'%d\\'}{'\u00e9%s%s\n\f' + '\r%s'}`, tag, tag, k, tag, strings.Repeat(tag[:1], 24), strings.ToLower(tag))
+		v[k] = srcFile{f.Name, strings.Replace(f.Text, "\n{/template}", lits+"\n{/template}", -1)}
 	}
 	return v
 }
@@ -1167,7 +1181,7 @@ func c09JSFile(gen *soyjs.Generator, name string) (res string) {
 func c09Expectations(c *c09Case, datas []data.Map, ij data.Map, msgs soymsg.Bundle) (*c09Expect, error) {
 	x := &c09Expect{}
 	n := len(c.Jobs)
-	x.solo, x.soloF, x.soloR, x.soloV = make([]string, n), make([]string, n), make([]string, n), make([]string, n)
+	x.solo, x.soloF, x.soloR, x.soloV, x.soloW = make([]string, n), make([]string, n), make([]string, n), make([]string, n), make([]string, n)
 	// one freshly compiled registry per kind of solo run (a purity defect, which
 	// could contaminate later solo renders, is the digests' business)
 	for kind := 0; kind < 3; kind++ {
@@ -1191,21 +1205,29 @@ func c09Expectations(c *c09Case, datas []data.Map, ij data.Map, msgs soymsg.Bund
 	if err != nil {
 		return nil, fmt.Errorf("variant bundle: %v", err)
 	}
+	wreg, err := c09Compile(c09Variant2(c.Files))
+	if err != nil {
+		return nil, fmt.Errorf("second variant bundle: %v", err)
+	}
 	for j, job := range c.Jobs {
 		x.soloV[j] = c09Render(soyhtml.NewTofu(vreg), job.Template, datas[j], ij, msgs, -1)
+		x.soloW[j] = c09Render(soyhtml.NewTofu(wreg), job.Template, datas[j], ij, msgs, -1)
 	}
 	alone, err := c09Compile(c.Files)
 	if err != nil {
 		return nil, err
 	}
 	gen := soyjs.NewGenerator(alone)
-	x.js = make([][3]string, len(alone.SoyFiles))
+	x.js = make([][4]string, len(alone.SoyFiles))
 	for k, f := range alone.SoyFiles {
-		for v := 0; v < 3; v++ {
+		for v := 0; v < 4; v++ {
 			var a, b string
-			if v == 2 {
+			switch v {
+			case 2:
 				a, b = c09JSFile(gen, f.Name), c09JSFile(gen, f.Name)
-			} else {
+			case 3:
+				a, b = c09JSFailing(f, msgs, c09JSLimit(k)), c09JSFailing(f, msgs, c09JSLimit(k))
+			default:
 				a, b = c09JS(f, msgs, v == 1), c09JS(f, msgs, v == 1)
 			}
 			if a == b {
@@ -1215,6 +1237,13 @@ func c09Expectations(c *c09Case, datas []data.Map, ij data.Map, msgs soymsg.Bund
 	}
 	if a, b := c09CompileErr(c09Broken(c.Files)), c09CompileErr(c09Broken(c.Files)); a == b {
 		x.broken = a
+	}
+	if bad := c09BadJSFile(); bad != nil {
+		for v := 0; v < 2; v++ {
+			if a, b := c09JS(bad, msgs, v == 1), c09JS(bad, msgs, v == 1); a == b {
+				x.jsBad[v] = a
+			}
+		}
 	}
 	return x, nil
 }
@@ -1266,7 +1295,8 @@ func c09RunCase(c *c09Case) *c09Result {
 		r.SetupErr = "po: " + err.Error()
 		return r
 	}
-	variant, broken := c09Variant(c.Files), c09Broken(c.Files)
+	variant, variant2, broken := c09Variant(c.Files), c09Variant2(c.Files), c09Broken(c.Files)
+	badJS := c09BadJSFile()
 
 	// In a warm case the expectations are computed first.  In a COLD case (own
 	// worker process) nothing of robfig/soy has run yet: the first compilations,
@@ -1375,15 +1405,23 @@ func c09RunCase(c *c09Case) *c09Result {
 				n := rPer/4 + 2
 				for k := 0; k < n; k++ {
 					for fi, f := range shared.SoyFiles {
-						// ES5, ES6 (one shared formatter value) and Generator.WriteFile in turn;
-						// in the first pass every JS goroutine does the same thing at the same time
-						v := k % 3
+						// ES5, ES6 (one shared formatter value), Generator.WriteFile and a generation into a writer
+						// that fails in turn; in the first pass every JS goroutine does the same thing at the same time
+						v := k % 4
 						if k > 0 {
-							v = (k + slot) % 3
+							v = (k + slot) % 4
 						}
-						if v == 2 {
+						// every other generation FOLLOWS (and, across goroutines, runs beside) a generation that
+						// fails half way: whatever Write keeps between calls is then left in its failure state
+						if badJS != nil && (k+slot+fi)%2 == 1 {
+							o.see(fmt.Sprintf("jsbad|%d", v%2), c09JS(badJS, msgs, v%2 == 1))
+						}
+						switch v {
+						case 2:
 							o.see(fmt.Sprintf("js|%d|2", fi), c09JSFile(gen, f.Name))
-						} else {
+						case 3:
+							o.see(fmt.Sprintf("js|%d|3", fi), c09JSFailing(f, msgs, c09JSLimit(fi)))
+						default:
 							o.see(fmt.Sprintf("js|%d|%d", fi, v), c09JS(f, msgs, v == 1))
 						}
 					}
@@ -1400,11 +1438,16 @@ func c09RunCase(c *c09Case) *c09Result {
 				n := rPer/16 + 2
 				for k := 0; k < n; k++ {
 					j := (k + round) % nj
-					switch (slot + k + round) % 3 {
-					case 0, 1:
+					// neighbouring compilers are one step apart: the two variants (different escaped
+					// literals) are compiled at the same time
+					switch (slot + k + round) % 4 {
+					case 0, 1, 2:
 						files, key := c.Files, "compile|%d"
-						if (slot+k+round)%3 == 1 {
+						switch (slot + k + round) % 4 {
+						case 1:
 							files, key = variant, "variant|%d"
+						case 2:
+							files, key = variant2, "variant2|%d"
 						}
 						reg, err := c09Compile(files)
 						if err != nil {
@@ -1412,7 +1455,7 @@ func c09RunCase(c *c09Case) *c09Result {
 							continue
 						}
 						o.see(fmt.Sprintf(key, j), c09Render(soyhtml.NewTofu(reg), c.Jobs[j].Template, datas[j], ij, msgs, -1))
-					case 2:
+					case 3:
 						o.see("broken", c09CompileErr(broken))
 					}
 				}
@@ -1468,6 +1511,10 @@ func c09RunCase(c *c09Case) *c09Result {
 			return exp.solo[a], true
 		case "variant":
 			return exp.soloV[a], true
+		case "variant2":
+			return exp.soloW[a], true
+		case "jsbad":
+			return exp.jsBad[a], exp.jsBad[a] != ""
 		case "js":
 			v, _ := strconv.Atoi(f[2])
 			return exp.js[a][v], exp.js[a][v] != ""
@@ -1487,10 +1534,12 @@ func c09RunCase(c *c09Case) *c09Result {
 			return fmt.Sprintf("render of %s (%s)", c.Jobs[a].Template, []string{"plain", "failing writer", "Tofu.Render"}[f[2][0]-'0'])
 		case "compile":
 			return fmt.Sprintf("independent bundle compiled concurrently, render of %s", c.Jobs[a].Template)
-		case "variant":
-			return fmt.Sprintf("independent bundle with the same template names and other bodies, render of %s", c.Jobs[a].Template)
+		case "variant", "variant2":
+			return fmt.Sprintf("independent bundle with the same template names and other bodies (string literals with escapes), render of %s", c.Jobs[a].Template)
+		case "jsbad":
+			return "JavaScript of the file that soyjs rejects in its second template (outcome)"
 		case "js":
-			return fmt.Sprintf("JavaScript of file %d (%s)", a, []string{"soyjs.Write ES5", "soyjs.Write ES6, shared formatter", "Generator.WriteFile"}[f[2][0]-'0'])
+			return fmt.Sprintf("JavaScript of file %d (%s)", a, []string{"soyjs.Write ES5", "soyjs.Write ES6, shared formatter", "Generator.WriteFile", "soyjs.Write ES5 into a writer that fails"}[f[2][0]-'0'])
 		}
 		return "compilation of the bundle with a syntax error (error text)"
 	}
